@@ -185,8 +185,9 @@ class NormLRAMacro(Macro):
         return Thm(hol_term.Eq(goal, from_real_la(to_la(goal))))
 
     def get_proof_term(self, args, prevs) -> ProofTerm:
+        # Prove exactly the equation that eval reports.
         goal = args[0]
-        return verit_conv.norm_lra_conv().get_proof_term(goal)
+        return ProofTerm("real_norm", hol_term.Eq(goal, from_real_la(to_la(goal))))
 
 
 def coeffs_gcd(sum_tm: hol_term.Term) -> int:
